@@ -202,7 +202,7 @@ fn c34_menu() -> PhMenu {
     let t2 = TargetPlaceholder::new("a".into());
     let t3 = TargetPlaceholder::new("a_0".into());
     let qs = vec![Qubit::Fixed(0), Qubit::Fixed(1), Qubit::Placeholder(p1.clone()), Qubit::Placeholder(p2.clone())];
-    let ts = vec![Target::Fixed("a".into()), Target::Fixed("a_0".into()), Target::Placeholder(t1.clone()), Target::Placeholder(t2.clone()), Target::Placeholder(t3.clone())];
+    let ts = vec![Target::Fixed("a".into()), Target::Fixed("a_0".into()), Target::Placeholder(t1.clone()), Target::Placeholder(t2.clone()), Target::Placeholder(t3.clone()), Target::Fixed("a_1".into())];
     let one = Expression::Number(C::new(1., 0.));
     let mut items: Vec<(String, Instruction)> = vec![];
     for (qi, q) in qs.iter().enumerate() {
@@ -419,31 +419,42 @@ pub static C34: PropDef = PropDef {
     id: "C34",
     level: "exploration",
     engine: "sweep",
-    rule: "every body of length <= 2 (thorough 3) over 55 instructions: 10 qubit-bearing kinds (gate, MEASURE, RESET, DELAY, FENCE, PULSE, CAPTURE, SET-PHASE, SHIFT-FREQUENCY, SWAP-PHASES) x qubit in {0, 1, P1, P2} and 3 label-bearing kinds x target in {a, a_0, T1(a), T2(a), T3(a_0)}; default resolution: nothing left, function, injective, avoids fixed qubits / labels of the body; custom resolvers: every subset of the 5 placeholders mapped -> exactly those replaced, with the returned values. non-trivial = body containing a placeholder",
+    rule: "every body of length <= 2 (thorough 3) over 58 instructions, and one step deeper over the label-only and a reduced qubit sub-menu: 10 qubit-bearing kinds (gate, MEASURE, RESET, DELAY, FENCE, PULSE, CAPTURE, SET-PHASE, SHIFT-FREQUENCY, SWAP-PHASES) x qubit in {0, 1, P1, P2} and 3 label-bearing kinds x target in {a, a_0, a_1, T1(a), T2(a), T3(a_0)}; default resolution: nothing left, function, injective, avoids fixed qubits / labels of the body; custom resolvers: every subset of the 5 placeholders mapped -> exactly those replaced, with the returned values. non-trivial = body containing a placeholder",
     assumptions: &["independent syntactic walk over qubit- and label-bearing positions (mc/src/props/prog.rs quals/targ)"],
     run: |ctx| {
         let m = c34_menu();
         let l = ctx.tier.pick(2, 3);
         ctx.bound("menu", json!(m.items.iter().map(|x| x.0.clone()).collect::<Vec<_>>()));
-        for len in 1..=l {
-            sequences(m.items.len(), len, |b| {
-                let has_ph = b.iter().any(|k| m.items[*k].0.contains("(q2)") || m.items[*k].0.contains("(q3)") || m.items[*k].0.contains("(t2)") || m.items[*k].0.contains("(t3)") || m.items[*k].0.contains("(t4)"));
-                let customs: Vec<Option<u32>> = if len <= 2 && has_ph { std::iter::once(None).chain((0..32).step_by(if len == 1 { 1 } else { 5 }).map(Some)).collect() } else { vec![None] };
-                for cu in customs {
-                    if !ctx.take(|| json!({"body": b.iter().map(|k| m.items[*k].0.clone()).collect::<Vec<_>>(), "custom_mask": cu})) {
-                        continue;
-                    }
-                    if has_ph {
-                        ctx.nontrivial(&(b, cu));
-                    }
-                    ctx.outcome(if cu.is_some() { "custom" } else { "default" });
-                    for (clause, detail) in c34_check(&m, b, cu) {
-                        let fails = |s: &[usize]| c34_check(&m, s, cu).iter().any(|(c, _)| *c == clause);
-                        let small = shrink_list(b.to_vec(), &fails);
-                        ctx.report(viol(&clause, format!("C34:{clause}"), json!({"body": small.iter().map(|k| m.items[*k].0.clone()).collect::<Vec<_>>(), "custom_mask": cu}), format!("body {:?}: {detail}", b.iter().map(|k| m.items[*k].0.clone()).collect::<Vec<_>>())));
-                    }
+        let is_ph = |m: &PhMenu, k: usize| ["(q2)", "(q3)", "(t2)", "(t3)", "(t4)"].iter().any(|t| m.items[k].0.contains(t));
+        // sub-menus explored one step deeper: labels only, and a reduced qubit menu
+        let label_items: Vec<usize> = (0..m.items.len()).filter(|k| m.items[*k].0.contains("(t")).collect();
+        let qubit_items: Vec<usize> = (0..m.items.len()).filter(|k| ["Gate(", "SetPhase(", "SwapPhases(", "Capture(", "Measure("].iter().any(|p| m.items[*k].0.starts_with(p))).collect();
+        let all_items: Vec<usize> = (0..m.items.len()).collect();
+        for (space, items, maxlen) in [("all", &all_items, l), ("labels", &label_items, l + 1), ("qubits", &qubit_items, l + 1)] {
+            for len in 1..=maxlen {
+                if space != "all" && len <= l {
+                    continue; // already covered by the full menu
                 }
-            });
+                sequences(items.len(), len, |b0| {
+                    let b: Vec<usize> = b0.iter().map(|k| items[*k]).collect();
+                    let has_ph = b.iter().any(|k| is_ph(&m, *k));
+                    let customs: Vec<Option<u32>> = if len <= 2 && has_ph { std::iter::once(None).chain((0..32).step_by(if len == 1 { 1 } else { 5 }).map(Some)).collect() } else { vec![None] };
+                    for cu in customs {
+                        if !ctx.take(|| json!({"body": b.iter().map(|k| m.items[*k].0.clone()).collect::<Vec<_>>(), "custom_mask": cu})) {
+                            continue;
+                        }
+                        if has_ph {
+                            ctx.nontrivial(&(&b, cu));
+                        }
+                        ctx.outcome(if cu.is_some() { "custom" } else { "default" });
+                        for (clause, detail) in c34_check(&m, &b, cu) {
+                            let fails = |s: &[usize]| c34_check(&m, s, cu).iter().any(|(c, _)| *c == clause);
+                            let small = shrink_list(b.to_vec(), &fails);
+                            ctx.report(viol(&clause, format!("C34:{clause}"), json!({"body": small.iter().map(|k| m.items[*k].0.clone()).collect::<Vec<_>>(), "custom_mask": cu}), format!("body {:?}: {detail}", b.iter().map(|k| m.items[*k].0.clone()).collect::<Vec<_>>())));
+                        }
+                    }
+                });
+            }
         }
     },
     replay: |c| {
